@@ -2,6 +2,7 @@ package main
 
 import (
 	"bufio"
+	"context"
 	"fmt"
 	"io"
 	"os"
@@ -167,7 +168,9 @@ func runStress(self, work string, procs, gor, iters, npaths int, seed uint64) (v
 		wg.Add(1)
 		go func(pr int) {
 			defer wg.Done()
-			cmd := exec.Command(self, "helper", "stress", dir, fmt.Sprint(pr), fmt.Sprint(gor), fmt.Sprint(iters), fmt.Sprint(seed), fmt.Sprint(npaths))
+			ctx, cancel := context.WithTimeout(context.Background(), workerDeadline)
+			defer cancel()
+			cmd := exec.CommandContext(ctx, self, "helper", "stress", dir, fmt.Sprint(pr), fmt.Sprint(gor), fmt.Sprint(iters), fmt.Sprint(seed), fmt.Sprint(npaths))
 			cmd.Stderr = os.Stderr
 			out, e := cmd.Output()
 			mu.Lock()
